@@ -4,9 +4,13 @@
 # violation by the same check. A MISSED entry means the machinery lost strength: exit 2 (engine error), never a VIOLATION.
 cd "$(dirname "$0")"
 id=$1
-out=$(PAR=${PAR:-8} ./all.sh "$id" 2>&1)
+out=$(GOVC_NORETRY=1 PAR=${PAR:-6} ./all.sh "$id" 2>&1)
 caught=$(echo "$out" | grep -c '^CAUGHT')
-missed=$(echo "$out" | grep -c '^MISSED')
+# seeded changes listed in known-misses.txt are documented limits of the technique (DESIGN.md section 0.8): they are
+# reported, not counted as a loss of strength
+known=$(cut -d' ' -f1 known-misses.txt | tr '\n' '|' | sed 's/|$//')
+missed=$(echo "$out" | grep '^MISSED' | grep -vcE "/seeded/($known) ")
+echo "$out" | grep '^MISSED' | grep -E "/seeded/($known) " | sed 's/^MISSED/KNOWN-MISS/' >&2
 errs=$(echo "$out" | grep -c '^ERROR\|^PATCH-FAILED')
 echo "govc selftest $id: must-fail corpus: $caught caught, $missed missed, $errs could not be applied/built" >&2
 echo "$out" | grep -v '^CAUGHT' >&2
